@@ -111,10 +111,30 @@ def segments(data, rnd):
 
 
 class Harness(object):
-  def __init__(self):
+  def __init__(self, pause_at=None):
     self.got = []
-    events.metricReceived.handlers[:] = [lambda m, dp: self.got.append((m, dp))]
+    self.pause_at = pause_at
+
+    def on_metric(m, dp):
+      self.got.append((m, dp))
+      if self.pause_at is not None and len(self.got) == self.pause_at:
+        # flow control kicks in while this datapoint is being handled (cache / send queue full)
+        events.pauseReceivingMetrics()
+    events.metricReceived.handlers[:] = [on_metric]
+    events.pauseReceivingMetrics.handlers[:] = []
+    events.resumeReceivingMetrics.handlers[:] = []
     state.connectedMetricReceiverProtocols.clear()
+    state.metricReceiversPaused = False
+
+  def feed(self, p, segs):
+    """deliver the segments the way a TCP transport does: nothing is read while the transport is
+    paused; the pause is lifted (buffers drained elsewhere) before the next read and at the end"""
+    for sg in segs:
+      if self.transport.producerState == 'paused':
+        events.resumeReceivingMetrics()
+      p.dataReceived(sg)
+    if self.transport.producerState == 'paused':
+      events.resumeReceivingMetrics()
 
   def tcp(self, cls):
     p = cls()
@@ -160,17 +180,20 @@ def sweep_c01(n, seed):
     # plaintext TCP
     data = b''.join(line_of(d) + b'\n' for d in dps)
     segs = segments(data, rnd)
-    h = Harness()
+    pause_at = rnd.choice([None, None] + list(range(1, len(dps) + 1)))
+    settings.USE_FLOW_CONTROL = pause_at is not None
+    h = Harness(pause_at)
     p = h.tcp(P.MetricLineReceiver)
     try:
-      for s in segs:
-        p.dataReceived(s)
+      h.feed(p, segs)
       if not same(h.got, want) or h.transport.disconnecting:
-        fail('c01-line', stream=repr(data), segments=[len(s) for s in segs], delivered=repr(h.got), expected=repr(want))
+        fail('c01-line', stream=repr(data), segments=[len(s) for s in segs], receivers_paused_while_handling_datapoint=pause_at,
+             delivered=repr(h.got), expected=repr(want))
     except Exception as e:
       fail('c01-line', stream=repr(data), segments=[len(s) for s in segs], escaped=repr(e))
     evals += 1
     # UDP
+    settings.USE_FLOW_CONTROL = False
     h = Harness()
     p = P.MetricDatagramReceiver()
     bs = batches(dps, rnd)
@@ -188,13 +211,15 @@ def sweep_c01(n, seed):
     frames = [[(m, (t, v)) for (m, t, v) in b] for b in batches(dps, rnd)]
     data = pickle_stream(frames, proto)
     segs = segments(data, rnd)
-    h = Harness()
+    pause_at = rnd.choice([None, None] + list(range(1, len(dps) + 1)))
+    settings.USE_FLOW_CONTROL = pause_at is not None
+    h = Harness(pause_at)
     p = h.tcp(P.MetricPickleReceiver)
     try:
-      for s in segs:
-        p.dataReceived(s)
+      h.feed(p, segs)
       if not same(h.got, want) or h.transport.disconnecting:
-        fail('c01-pickle', frames=repr(frames), protocol=proto, segments=[len(s) for s in segs], delivered=repr(h.got), expected=repr(want))
+        fail('c01-pickle', frames=repr(frames), protocol=proto, segments=[len(s) for s in segs], receivers_paused_while_handling_datapoint=pause_at,
+             delivered=repr(h.got), expected=repr(want))
     except Exception as e:
       fail('c01-pickle', frames=repr(frames), protocol=proto, segments=[len(s) for s in segs], escaped=repr(e))
     evals += 1
@@ -214,6 +239,7 @@ BAD_ENTRIES = [(5, (1, 1)), (b'a', (1, 1)), (None, (1, 1)), ('a', (10 ** 400, 1)
 
 
 def sweep_c11(n, seed):
+  settings.USE_FLOW_CONTROL = False
   rnd = random.Random('c11|%s' % seed)
   evals, fails = 0, {}
   settings.MIN_TIMESTAMP_RESOLUTION = 0
@@ -369,6 +395,7 @@ def valid_patterns(lines):
 
 
 def sweep_c12(n, seed):
+  settings.USE_FLOW_CONTROL = False
   rnd = random.Random('c12|%s' % seed)
   evals, fails = 0, {}
 
